@@ -181,32 +181,52 @@ def import_by_path(ctx, tmp):
         p = os.path.join(d, fn)
         os.makedirs(os.path.dirname(p), exist_ok=True)
         open(p, 'w').write(src)
-    for fn, src, expect in cases + [('missing.py', None, 'raise')]:
-        for index in (-1, 0):
-            ctx.evaluations += 1
-            p = os.path.join(d, fn)
-            before = list(sys.path)
-            err = None
-            mod = None
-            try:
-                mod = util_import.import_module_from_path(p, index=index)
-            except Exception as e:
-                err = e
-            after = list(sys.path)
-            problem = None
-            if after != before:
-                problem = 'sys.path changed by import_module_from_path(%s, index=%d): %r' % (fn, index, [x for x in after if x not in before] or 'reordered/removed')
-                sys.path[:] = before
-            elif expect == 'raise' and err is None:
-                problem = 'import of %s did not raise' % fn
-            elif expect is None and err is not None:
-                problem = 'import of %s raised %r' % (fn, err)
-            elif mod is not None:
-                want = fn[:-3].replace('/', '.').replace('.__init__', '')
-                if mod.__name__ != want:
-                    problem = 'module imported from %s is named %r, expected %r' % (fn, mod.__name__, want)
-            if problem:
-                ctx.violation('import-by-path', {'what': problem, 'theorem_or_correspondence': 'C17 import_module_from_path'}, True)
+    real_path = list(sys.path)
+    # how the search path looks when the import is asked for: the module's root directory absent, or already on it
+    # at the front, in the middle, at the end, or twice
+    arrangements = {
+        'absent': lambda base: list(base),
+        'front': lambda base: [d] + base,
+        'middle': lambda base: base[:1] + [d] + base[1:],
+        'last': lambda base: base + [d],
+        'twice': lambda base: [d] + base + [d],
+    }
+    try:
+        for fn, src, expect in cases + [('missing.py', None, 'raise')]:
+            for index in (-1, 0):
+                for aname, arrange in arrangements.items():
+                    ctx.evaluations += 1
+                    ctx.count('import-by-path:' + aname)
+                    p = os.path.join(d, fn)
+                    sys.path[:] = arrange(real_path)
+                    before = list(sys.path)
+                    err = None
+                    mod = None
+                    try:
+                        mod = util_import.import_module_from_path(p, index=index)
+                    except Exception as e:
+                        err = e
+                    after = list(sys.path)
+                    problem = None
+                    if after != before:
+                        problem = 'sys.path changed by import_module_from_path(%s, index=%d) with the module root %s on sys.path: before %r after %r' % (
+                            fn, index, aname, [x if x != d else '<ROOT>' for x in before][:4] + ['...'] + [x if x != d else '<ROOT>' for x in before][-2:],
+                            [x if x != d else '<ROOT>' for x in after][:4] + ['...'] + [x if x != d else '<ROOT>' for x in after][-2:])
+                    elif expect == 'raise' and err is None:
+                        problem = 'import of %s did not raise' % fn
+                    elif expect is None and err is not None:
+                        problem = 'import of %s raised %r' % (fn, err)
+                    elif mod is not None:
+                        want = fn[:-3].replace('/', '.').replace('.__init__', '')
+                        if mod.__name__ != want:
+                            problem = 'module imported from %s is named %r, expected %r' % (fn, mod.__name__, want)
+                    if problem:
+                        ctx.violation('import-by-path', {'what': problem, 'file': fn, 'index': index, 'arrangement': aname,
+                                      'theorem_or_correspondence': 'C17 import_module_from_path'}, True)
+                    for k in [k for k in sys.modules if k in ('good', 'raises', 'pkg', 'pkg.sub', 'syntax')]:
+                        del sys.modules[k]
+    finally:
+        sys.path[:] = real_path
     for k in [k for k in sys.modules if k in ('good', 'raises', 'pkg', 'pkg.sub', 'syntax')]:
         del sys.modules[k]
 
@@ -267,7 +287,7 @@ def run(ctx):
     ctx.exhaustive = True
     ctx.add_rule('every parent-closed tree with <= %d of 14 candidate entries (packages, modules, plain directories next to same-named .py files, __main__.py, '
                  'underscore names) + seeded larger ones; %d names per tree; every .py file / package dir for the reverse direction and the 4 normalize settings; '
-                 'two-root search paths; import_module_from_path on 6 module kinds x index; non-trivial = tree in which some name resolves' % (5 if quick else 6, len(NAMES)))
+                 'two-root search paths; import_module_from_path on 6 module kinds x index x 5 arrangements of sys.path (module root absent / front / middle / last / twice); non-trivial = tree in which some name resolves' % (5 if quick else 6, len(NAMES)))
     ctx.sample({'tree': trees[40], 'names': NAMES[:5]})
     ctx.sample({'tree': trees[-1]})
     ctx.assumptions += ['symlinks, case-insensitive file systems, extension modules, egg-links and editable-install finders are outside the model (never generated)',
